@@ -35,8 +35,8 @@ func c18Sequences(c *Ctx, cases []c18Case, ref []uint64) {
 		for _, p := range poisonInputs {
 			for _, q := range stateProbes {
 				c.Journal(e, q)
-				digestOf(e, p)
-				d, _ := digestOf(e, q)
+				digestSeq(e, p)
+				d, _ := digestSeq(e, q)
 				if i, ok := idxOf[c18Case{e, q}]; ok && d != ref[i] {
 					c.Violate("c18:order-dependent", e, q, fmt.Sprintf("the result differs when the call follows a failing call on %q", p))
 				}
